@@ -6,6 +6,8 @@
 
 include!(concat!(env!("OUT_DIR"), "/gram_mods.rs"));
 
+mod corpus;
+mod eterm;
 mod fw;
 mod props;
 mod rtok;
